@@ -666,6 +666,7 @@ def f5_triplets(ctx, repo):
     cells = [(cuts[i], cuts[i + 1] - 1) for i in range(len(cuts) - 1)]
     bad = []
     seen_arms = {}
+    hulls = {}
     for cx in cells:
         for cy in cells:
             env = {"absX": Iv(*cx), "absY": Iv(*cy), "x": Iv(0) if cx == (0, 0) else Iv(1, 65535), "y": Iv(0) if cy == (0, 0) else Iv(1, 65535), "onCurveBit": Iv(0), "xSignBit": Iv(0, 1), "ySignBit": Iv(0, 1), "xySignBits": Iv(0, 3)}
@@ -704,6 +705,43 @@ def f5_triplets(ctx, repo):
             if n != len(tr):
                 bad.append(f"|dx| in {cx}, |dy| in {cy}: writer appends {len(tr)} bytes, reader consumes {n} for flags [{fiv.lo},{fiv.hi}]")
             seen_arms.setdefault(chosen, set()).add(arm)
+            hx, hy = hulls.setdefault(chosen, [cx, cy])
+            hulls[chosen] = [(min(hx[0], cx[0]), max(hx[1], cx[1])), (min(hy[0], cy[0]), max(hy[1], cy[1]))]
+    # (iii) the reader's decoded magnitude range of each class contains the |dx| / |dy| range of the writer branch feeding it
+    class _Sub(ast.NodeTransformer):
+        def visit_Subscript(self, n):
+            if norm(n.value) == "triplets":
+                return ast.copy_location(ast.Name(id="_byte", ctx=ast.Load()), n)
+            return self.generic_visit(n)
+
+    for ai, (k, body) in enumerate(dec):
+        lo_f = bounds[ai]
+        hi_f = bounds[ai + 1] - 1
+        renv = {"flag": Iv(lo_f, hi_f), "_byte": Iv(0, 255)}
+        rev = Evaluator(renv, cenv)
+        img = {}
+        try:
+            for st in body:
+                if not isinstance(st, ast.Assign) or not isinstance(st.targets[0], ast.Name):
+                    continue
+                tgt = st.targets[0].id
+                val = _Sub().visit(ast.parse(norm(st.value), mode="eval").body)
+                if isinstance(val, ast.Call) and norm(val.func) == "withSign" and len(val.args) == 2:
+                    img[tgt] = rev.ev(val.args[1])
+                else:
+                    v = rev.ev(val)
+                    rev.env[tgt] = v
+                    if tgt in ("dx", "dy"):
+                        img[tgt] = v
+        except Top as ex:
+            ctx.ob("F5-triplet", r.where, f"reader class {ai + 1}: decode expressions evaluable", False, f"not evaluable: {ex}")
+            continue
+        if ai not in hulls:
+            continue
+        for var, hull in (("dx", hulls[ai][0]), ("dy", hulls[ai][1])):
+            iv = img.get(var)
+            ok = iv is not None and iv.lo <= hull[0] and iv.hi >= hull[1]
+            ctx.ob("F5-triplet", w.where, f"writer branch {ai + 1} sends |{var}| in [{hull[0]},{hull[1]}]; reader class {ai + 1} can decode [{iv.lo if iv else '?'},{iv.hi if iv else '?'}]", ok, "" if ok else f"a |{var}| the writer puts in this class is outside what the reader can reconstruct from the bits stored: the point comes back at another position")
     for bi, arms in sorted(seen_arms.items()):
         ok = arms == {bi}
         ctx.ob("F5-triplet", w.where, f"writer branch {bi + 1} -> reader class {sorted(a + 1 for a in arms)}", ok, "" if ok else "a writer branch feeds a different reader class than its position in the chain")
